@@ -50,6 +50,8 @@ structure Transport where
   fl : List FlAns
   wlog : Bytes := []
   events : List String := []
+  /-- the peer still holds back input (closed-loop client): an empty input then means "wait", not end-of-stream -/
+  hold : Bool := false
 deriving Repr
 
 namespace Transport
@@ -66,6 +68,7 @@ def read (t : Transport) (cap : Nat) : Transport × Poll (Except IoErr Bytes) :=
     | .pending => (t.ev s!"R{cap}:P", .pending)
     | _ =>
       if t.input.isEmpty then
+        if t.hold then (t.ev s!"R{cap}:W", .pending) else
         match t.endMode with
         | .eof => (t.ev s!"R{cap}:0", .ready (.ok []))
         | .pend => (t.ev s!"R{cap}:W", .pending)
@@ -262,26 +265,33 @@ inductive IRes
   | panic (s : String)
 deriving Repr, DecidableEq
 
-/-- the parse / compress / read loop of `poll_input`; each iteration that continues has read ≥ 1 byte -/
-def inLoop (fuel : Nat) (r : AReq) (new : Bytes) (dest : Option Nat) (t : Transport) : AReq × Transport × IRes :=
+/-- the parse / compress / flush / read loop of `poll_input`; each iteration that continues has read ≥ 1 byte -/
+def inLoop (fuel : Nat) (r : AReq) (new : Bytes) (dest : Option Nat) (m : MutexSt) (t : Transport) :
+    AReq × MutexSt × Transport × IRes :=
   match fuel with
-  | 0 => (r, t, .panic "model: input loop fuel exhausted")
+  | 0 => (r, m, t, .panic "model: input loop fuel exhausted")
   | fuel + 1 =>
     match r.sp.parse new dest with
-    | (sp, .panic s) => ({ r with sp := sp }, t, .panic s)
-    | (sp, .err e) => ({ r with sp := sp }, t, .err (ioOfPErr e))
+    | (sp, .panic s) => ({ r with sp := sp }, m, t, .panic s)
+    | (sp, .err e) => ({ r with sp := sp }, m, t, .err (ioOfPErr e))
     | (sp, .ok st) =>
       let r := { r with sp := sp }
       if st.streamEnd || st.stream > 0 then
         let r := if !r.writeable && r.isFinalStream then { r with writeable := true } else r
-        (r, t, .ready st.stream st.delivered)
+        (r, m, t, .ready st.stream st.delivered)
       else
         let r := { r with sp := r.sp.compress }
-        match t.read r.sp.free with
-        | (t, .pending) => (r, t, .pending)
-        | (t, .ready (.error e)) => (r, t, .err e)
-        | (t, .ready (.ok [])) => (r, t, .err .unexpectedEof)
-        | (t, .ready (.ok bs)) => inLoop fuel r bs dest t
+        -- replies produced by the parse above are sent before waiting for more input
+        match r.pollOutput m t with
+        | (r, m, t, .pending) => (r, m, t, .pending)
+        | (r, m, t, .err e) => (r, m, t, .err e)
+        | (r, m, t, .panic s) => (r, m, t, .panic s)
+        | (r, m, t, .ready) =>
+          match t.read r.sp.free with
+          | (t, .pending) => (r, m, t, .pending)
+          | (t, .ready (.error e)) => (r, m, t, .err e)
+          | (t, .ready (.ok [])) => (r, m, t, .err .unexpectedEof)
+          | (t, .ready (.ok bs)) => inLoop fuel r bs dest m t
 
 /-- `Request::poll_input(cx, dest)`; `dest` = length of the caller's buffer. -/
 def AReq.pollInput (r : AReq) (dest : Option Nat) (m : MutexSt) (t : Transport) : AReq × MutexSt × Transport × IRes :=
@@ -297,9 +307,7 @@ def AReq.pollInput (r : AReq) (dest : Option Nat) (m : MutexSt) (t : Transport) 
     | (r, m, t, .pending) => (r, m, t, .pending)
     | (r, m, t, .err e) => (r, m, t, .err e)
     | (r, m, t, .panic s) => (r, m, t, .panic s)
-    | (r, m, t, .ready) =>
-      let (r, t, res) := inLoop (t.input.length + 2) r [] dest t
-      (r, m, t, res)
+    | (r, m, t, .ready) => inLoop (t.input.length + 2) r [] dest m t
 
 /-- `Request::set_stream` (panics on a rejected selection) -/
 def AReq.setStream (r : AReq) (s : Nat) : Option AReq :=
